@@ -148,7 +148,7 @@ SchemaCharacterisation == (Validated /\ mut = NoMut) => ((~sch.raised /\ sch.err
 
 EmitSchemaCase ==
   (Emit /\ Validated /\ ~sch.noop) =>
-     PrintT(<<"CASE", ToJson([dtext |-> dtext, guard |-> guard, dfield |-> dfield, part |-> part, origin |-> origin, kind |-> kind, host |-> host, mname |-> mname, doc |-> doc,
+     PrintT(<<"CASE", ToJson([nsparts |-> nsparts, dtext |-> dtext, guard |-> guard, dfield |-> dfield, part |-> part, origin |-> origin, kind |-> kind, host |-> host, mname |-> mname, doc |-> doc,
                               cwdrel |-> cwdrel, bases |-> bases, deco |-> deco, pann |-> pann, pdef |-> pdef, pdoc |-> pdoc,
                               ret |-> ret, val |-> val, ann |-> ann, where |-> where, alno |-> alno, resolved |-> resolved,
                               slot |-> slot, spine |-> spine, leaf |-> leaf, section |-> section,
